@@ -255,7 +255,7 @@ def run(ctx):
                     sites.add(f.id)
         allowed = {FEE + "FeeParams::<T>::apply_fees", FEE + "Fees::<T>::new", "<gmsol_model::params::fee::Fees<T> as std::default::Default>::default"}
         ctx.ob("construct:Fees", priv and sites == allowed and [f["name"] for f in adt.fields] == ["fee_amount_for_receiver", "fee_amount_for_pool"],
-               "Fees fields private=%s; aggregate construction sites: %s" % (priv, sorted(H.short_path(s) if hasattr(H, "short_path") else s for s in sites)),
+               "Fees fields private=%s; aggregate construction sites: %s" % (priv, sorted(s.split("::")[-2] + "::" + s.split("::")[-1] for s in sites)),
                where="%s:%d" % (adt.file, adt.line))
     if new is not None:
         cs = sorted(set(c.fn.id for c in prog.callers_of(new.id)))
